@@ -93,7 +93,10 @@ func RunTLC(specDir, scratch string, o TLCOpts) (*TLCResult, error) {
 	}
 	meta := filepath.Join(scratch, "meta-"+o.Module+"-"+strings.TrimSuffix(o.Cfg, ".cfg"))
 	os.RemoveAll(meta)
-	args := []string{"-XX:+UseParallelGC", "-XX:ParallelGCThreads=4", fmt.Sprintf("-Xmx%dg", o.HeapGB), "-Xss256m"}
+	// TLC's modules create temporary directories (tlc-<n>) and do not remove them: keep them out of /tmp
+	jtmp := filepath.Join(scratch, "jtmp")
+	os.MkdirAll(jtmp, 0o755)
+	args := []string{"-XX:+UseParallelGC", "-XX:ParallelGCThreads=4", fmt.Sprintf("-Xmx%dg", o.HeapGB), "-Xss256m", "-Djava.io.tmpdir=" + jtmp}
 	if o.DFS {
 		args = append(args, "-Dtlc2.tool.queue.IStateQueue=StateDeque")
 	}
